@@ -1160,3 +1160,51 @@ def pan12(ctx):
     if n_sites < 3:
         raise AnchorMissing("PAN-12: %d reads of get_seg_at(cursor).unwrap() found (expected >= 3)" % n_sites)
     return r
+
+
+# ---------------------------------------------------------------- PAN-13: the unbounded optional makes progress or gives up
+
+def pan13(ctx):
+    """`(X,M:)` / `(X,0)` has no upper bound: the lazy extension loop of context_match_option runs `while index < max`
+    with max = usize::MAX. The body of an optional may match without consuming anything (`(#,0)`, `($,0)`): then every
+    further repetition finds the same state, and the loop spins for 2^64 rounds. Every trip round that loop must pass a
+    test that the repetition moved the cursor (a SegPos comparison one of whose outcomes leaves the loop)."""
+    from engine_flw2 import _all_defs
+    r = RuleResult("PAN-13", "context_match_option: every iteration of the extension loop whose bound may be usize::MAX passes a comparison of the cursor before / after the repetition (a zero-width optional body ends the loop instead of spinning)", floor=1)
+    lib = ctx.lib
+    b = ctx.fn(lib, "asca::subrule::SubRule::context_match_option")
+    cfg = b.cfg
+    M = {i for i, t in b.calls() if (callee_path(t) or "") == "asca::subrule::SubRule::match_opt_states"}
+    EQ = {i for i, t in b.calls() if (t["callee"].get("def") or "") in ("core::cmp::PartialEq::eq", "core::cmp::PartialEq::ne") and SEGPOS in (t["callee"].get("inst") or "")}
+    n = 0
+    for h, body in cfg.loops:
+        body = set(body)
+        if not (M & body):
+            continue
+        # is the loop bounded by something that may be usize::MAX?
+        unbounded = False
+        hb = b.blocks[h]
+        for s_ in hb["s"]:
+            if s_["k"] == "assign" and s_["rv"].get("k") == "binop" and s_["rv"]["op"] in ("Lt", "Le", "Gt", "Ge"):
+                for o in (s_["rv"]["a"], s_["rv"]["b"]):
+                    if o.get("k") in ("copy", "move") and any(x.startswith("unwrap_or") for x in _all_defs(b, o["pl"]["l"])):
+                        unbounded = True
+        if not unbounded:
+            continue
+        n += 1
+        # a trip from the head back to the head that avoids every cursor comparison
+        succ_in = [x for x in cfg.succ[h] if x in body]
+        spins = False
+        for s0 in succ_in:
+            reach = cfg.reachable_from(s0, avoid=(EQ & body) | (set(range(len(b.blocks))) - body))
+            if any(h in cfg.succ[x] for x in reach if x in body) and s0 not in EQ:
+                spins = True
+        loc = ":".join((hb["t"].get("loc") or b.loc).split(":")[:2])
+        r.inst("context_match_option: the extension loop bounded by `unwrap_or(usize::MAX)` compares the cursor before and after each repetition (%d comparison site(s))" % len(EQ & body), loc, "ok" if not spins else "report")
+        if spins:
+            r.report("PAN-13|context_match_option|no-progress-test", loc, b.path,
+                     "the extension loop of an optional without upper bound can go round without testing that the repetition consumed anything: an optional whose body matches at zero width (`a > e / _(#,0)k`, `_($,0)k`, `_(,0)k`) repeats the same state up to usize::MAX times -- the call does not return")
+    if n == 0:
+        raise AnchorMissing("PAN-13: context_match_option has no loop over match_opt_states bounded by unwrap_or(..)")
+    r.analysed = {"unbounded_loops": n}
+    return r
